@@ -101,25 +101,52 @@ def parse_opts(words):
     return o
 
 
+def clause_ends(text_lines):
+    """for each line: True if a clause of a requires/ensures/invariant list ends on it, i.e. its code
+    ends with a comma at bracket depth 0 (depth tracked across the lines of the block)."""
+    ends = []
+    depth = 0
+    for l in text_lines:
+        code = l.split('//')[0]
+        for ch in code:
+            if ch in '([{':
+                depth += 1
+            elif ch in ')]}':
+                depth -= 1
+        ends.append(depth <= 0 and code.rstrip().endswith(','))
+        if depth < 0:
+            depth = 0
+    return ends
+
+
+KEYWORD_LINE = re.compile(r'\s*(requires|ensures|invariant|invariant_except_break|decreases|recommends)\s*$')
+
+
 def labelled(text_lines, default_props, item, kind, asm, default_tag=None):
-    """turn spec/loop/ghost lines into (line, meta). A label `//# PROPS name` closes a clause: it
-    applies to its own line and to the preceding lines back to the previous label (clauses may
-    span several lines and carry their label on the last one). Lines after the last label of a
-    block belong to the function's default properties."""
+    """turn spec/loop/ghost lines into (line, meta). A label `//# PROPS name` stands at the end of the
+    LAST line of a clause; it applies to that line and to the preceding lines of the same clause
+    (back to the previous clause end: a comma at bracket depth 0, a keyword line or another label).
+    Unlabelled clauses are proof-internal: their failure is reported as undecided."""
     metas = [None] * len(text_lines)
-    start = 0
+    ends = clause_ends(text_lines)
     for k, l in enumerate(text_lines):
         m = LABEL_RE.search(l)
-        if m:
-            props = m.group(1).split(',')
-            tag = m.group(2)
-            if tag in asm.labels and asm.labels[tag]['item'] != item:
-                raise TemplateError("label %s used twice" % tag)
-            asm.labels[tag] = {'props': props, 'item': item, 'kind': kind}
-            mt = {'item': item, 'origin': kind, 'tag': tag, 'props': props}
-            for q in range(start, k + 1):
-                metas[q] = mt
-            start = k + 1
+        if not m:
+            continue
+        props = m.group(1).split(',')
+        tag = m.group(2)
+        if tag in asm.labels and asm.labels[tag]['item'] != item:
+            raise TemplateError("label %s used twice" % tag)
+        asm.labels[tag] = {'props': props, 'item': item, 'kind': kind}
+        mt = {'item': item, 'origin': kind, 'tag': tag, 'props': props}
+        metas[k] = mt
+        q = k - 1
+        while q >= 0:
+            code = text_lines[q].split('//')[0]
+            if metas[q] is not None or LABEL_RE.search(text_lines[q]) or ends[q] or code.strip() == '' or KEYWORD_LINE.match(code):
+                break
+            metas[q] = mt
+            q -= 1
     dflt = {'item': item, 'origin': kind, 'tag': default_tag, 'props': list(default_props)}
     return [(l, metas[k] or dflt) for k, l in enumerate(text_lines)]
 
